@@ -366,6 +366,36 @@ func nbPairingUDP(kind string, nClients, mReq, mode int, run int) {
 				}
 			}
 			<-done
+			tried := 0
+			for i := 0; i < mReq && tried < 4; i++ {
+				rq := reqFor(c, i)
+				if answered[rq.id] {
+					continue
+				}
+				tried++
+				ok := false
+				buf := make([]byte, 65536)
+				for attempt := 0; attempt < 4 && !ok; attempt++ {
+					conn.Write(nbQuery(rq.id, rq.name))
+					conn.SetReadDeadline(time.Now().Add(time.Second))
+					for {
+						n, err := conn.Read(buf)
+						if err != nil {
+							break
+						}
+						if n >= 2 && binary.BigEndian.Uint16(buf) == rq.id {
+							ok = true
+							break
+						}
+					}
+				}
+				evals.Add(1)
+				if !ok {
+					viol("nbns."+kind+":request-never-answered", fmt.Sprintf("query %#04x for %s got no response: neither in the run nor when repeated alone four times, one second apart", rq.id, rq.name), map[string]any{"scenario": scen, "client": c, "request": i})
+					break
+				}
+				count("nbns_requests_answered_only_when_repeated", 1)
+			}
 		}(c)
 	}
 	wg.Wait()
@@ -765,6 +795,157 @@ func nbGroups(kind string) {
 	}
 }
 
+// nbSameID: one client socket that uses the same transaction id for different requests in a row
+// (a node with a constant id): every response is the answer for the request that preceded it.
+func nbSameID(kind string) {
+	srv, table, err := newNB(kind)
+	if err != nil {
+		inconclusive("same-id/" + kind + ": " + err.Error())
+		return
+	}
+	for i := 0; i < 6; i++ {
+		table.RegisterName(fmt.Sprintf("SAMEID%02d", i), nbtns.Unique, net.IP{10, 30, 0, byte(i + 1)}, time.Hour)
+	}
+	tr.reset(0)
+	if err := srv.Start(); err != nil {
+		inconclusive("same-id/" + kind + ": start: " + err.Error())
+		return
+	}
+	defer within(progressLimit, srv.Stop)
+	addr := srv.VerifAddr()
+	var conn net.Conn
+	if kind == "TCPServer" {
+		conn, err = net.Dial("tcp4", addr.String())
+	} else {
+		conn, err = net.DialUDP("udp4", nil, addr.(*net.UDPAddr))
+	}
+	if err != nil {
+		return
+	}
+	defer conn.Close()
+	exchange := func(pkt []byte) ([]byte, bool) {
+		for try := 0; try < 3; try++ {
+			if kind == "TCPServer" {
+				conn.Write(nbFrame(pkt))
+				conn.SetReadDeadline(time.Now().Add(3 * time.Second))
+				var l [2]byte
+				if _, err := io.ReadFull(conn, l[:]); err != nil {
+					return nil, false
+				}
+				b := make([]byte, int(l[0])<<8|int(l[1]))
+				if _, err := io.ReadFull(conn, b); err != nil {
+					return nil, false
+				}
+				return b, true
+			}
+			conn.Write(pkt)
+			conn.SetReadDeadline(time.Now().Add(2 * time.Second))
+			buf := make([]byte, 65536)
+			if n, err := conn.Read(buf); err == nil {
+				return buf[:n], true
+			}
+		}
+		return nil, false
+	}
+	const id = 0x4242
+	for round := 0; round < pick(2, 10); round++ {
+		for i := 0; i < 8; i++ {
+			name, ip, neg := fmt.Sprintf("SAMEID%02d", i), net.IP{10, 30, 0, byte(i + 1)}, i >= 6
+			raw, ok := exchange(nbQuery(id, name))
+			evals.Add(1)
+			if !ok {
+				count("same_id_requests_unanswered", 1)
+				continue
+			}
+			judgeNB(kind, "same-id", raw, map[uint16]nbReq{id: {id: id, name: name, ip: ip, neg: neg}}, map[uint16]bool{})
+		}
+		// a registration under the same id right after a query: it must be executed
+		fresh := fmt.Sprintf("SAMEIDNEW%d", round)
+		exchange(nbQuery(id, "SAMEID00"))
+		exchange(nbOpPacket(id, 5, fresh, net.IP{10, 30, 9, byte(round + 1)}, 3600))
+		evals.Add(1)
+		if o, _, err := table.QueryName(fresh); err != nil || len(o) == 0 {
+			viol("nbns."+kind+":same-id:registration-not-executed", "a registration sent under the transaction id of the preceding query was not executed", map[string]any{"server": kind, "name": fresh})
+		}
+		nontrivial(fmt.Sprintf("same-id|%s|%d", kind, round))
+	}
+}
+
+// nbRuntFrames: on one TCP connection, frames too short to be a request followed by other frames.
+// Whatever the server does with the short ones (ignore, reset), every response it sends answers
+// a frame that was actually sent: its transaction id is that of a sent frame of request size.
+func nbRuntFrames() {
+	srv, table, err := newNB("TCPServer")
+	if err != nil {
+		inconclusive("runt-frames: " + err.Error())
+		return
+	}
+	table.RegisterName("RUNTALPHA", nbtns.Unique, net.IP{10, 31, 0, 1}, time.Hour)
+	tr.reset(0)
+	if err := srv.Start(); err != nil {
+		inconclusive("runt-frames: start: " + err.Error())
+		return
+	}
+	defer within(progressLimit, srv.Stop)
+	addr := srv.VerifAddr()
+	valid := nbQuery(0x7A01, "RUNTALPHA")
+	for n := 0; n <= 13; n++ {
+		for variant := 0; variant < 3; variant++ {
+			runt := make([]byte, n)
+			for i := range runt {
+				runt[i] = byte(0x30 + i)
+			}
+			var frames [][]byte
+			switch variant {
+			case 0: // the runt, then a valid request
+				frames = [][]byte{runt, valid}
+			case 1: // the runt's payload looks like a length prefix: what follows would be re-framed
+				if n < 2 {
+					continue
+				}
+				// frame 1: two octets that read as a length; frame 2: a query without its id. Cut as
+				// sent, neither is a request; re-cut after skipping only frame 1's prefix, frame 1's
+				// payload becomes a length and frame 2's own prefix becomes a transaction id
+				body := valid[2:]
+				frames = [][]byte{{byte((len(body) + 2) >> 8), byte(len(body) + 2)}, body}
+			default: // two runts, then a valid request
+				frames = [][]byte{runt, runt, valid}
+			}
+			conn, err := net.Dial("tcp4", addr.String())
+			if err != nil {
+				return
+			}
+			var stream []byte
+			sentIDs := map[uint16]bool{}
+			for _, f := range frames {
+				stream = append(stream, nbFrame(f)...)
+				if len(f) >= 12 {
+					sentIDs[binary.BigEndian.Uint16(f)] = true
+				}
+			}
+			conn.Write(stream)
+			evals.Add(1)
+			for {
+				conn.SetReadDeadline(time.Now().Add(700 * time.Millisecond))
+				var l [2]byte
+				if _, err := io.ReadFull(conn, l[:]); err != nil {
+					break
+				}
+				b := make([]byte, int(l[0])<<8|int(l[1]))
+				if _, err := io.ReadFull(conn, b); err != nil {
+					break
+				}
+				if len(b) >= 2 && !sentIDs[binary.BigEndian.Uint16(b)] {
+					viol("nbns.TCPServer:runt-frame:fabricated-response", fmt.Sprintf("after a %d-octet frame the server sent a response with transaction id %#04x; no frame of request size with that id was sent (frames were re-cut)", n, binary.BigEndian.Uint16(b)), map[string]any{"stream": hex.EncodeToString(stream), "response": hex.EncodeToString(b)})
+					break
+				}
+			}
+			conn.Close()
+			nontrivial(fmt.Sprintf("runt|%d|%d", n, variant))
+		}
+	}
+}
+
 // ------------------------------------------------------------------ NBNS shutdown trials
 
 func nbShutdown(kind string, trials int) {
@@ -972,6 +1153,45 @@ func llmnrPairing(nClients, mReq, mode, run int) {
 				sent.Add(1)
 			}
 			<-fin
+			// requests still without a response: loss is not expected on a loopback socket driven in a
+			// closed loop, but is tolerated once. A request that is repeated four times, alone, with
+			// a second to answer each, and never answered while the server is up has been dropped
+			// by the server.
+			tried := 0
+			for i := 0; i < mReq && tried < 4; i++ {
+				id := uint16(c*4000 + i + 1)
+				if answered[id] {
+					continue
+				}
+				tried++
+				q := llmnr.NewMessage()
+				q.ID = id
+				q.SetQuery()
+				q.AddQuestion(llName(c, i), llmnr.TypeA, llmnr.ClassIN)
+				b, _ := q.Encode()
+				ok := false
+				buf := make([]byte, 2048)
+				for attempt := 0; attempt < 4 && !ok; attempt++ {
+					conn.Write(b)
+					conn.SetReadDeadline(time.Now().Add(time.Second))
+					for {
+						n, err := conn.Read(buf)
+						if err != nil {
+							break
+						}
+						if m, err := llmnr.DecodeMessage(append([]byte{}, buf[:n]...)); err == nil && m.ID == id {
+							ok = true
+							break
+						}
+					}
+				}
+				evals.Add(1)
+				if !ok {
+					viol("llmnr.Server:request-never-answered", fmt.Sprintf("query %#04x for %s got no response: neither in the run nor when repeated alone four times, one second apart", id, llName(c, i)), map[string]any{"scenario": scen, "client": c, "request": i})
+					break
+				}
+				count("llmnr_requests_answered_only_when_repeated", 1)
+			}
 		}(c)
 	}
 	wg.Wait()
@@ -1476,7 +1696,8 @@ func nbChallenges() {
 		name string
 		want bool
 	}
-	scripts := []script{{"at-once", true}, {"retry-only", true}, {"foreign-id-then-right", true}, {"other-address", false}, {"name-error", false}, {"silent", false}, {"garbage-then-right", true}}
+	scripts := []script{{"at-once", true}, {"retry-only", true}, {"foreign-id-then-right", true}, {"other-address", false}, {"name-error", false}, {"silent", false}, {"garbage-then-right", true},
+		{"foreign-id-name-error-then-right", true}, {"foreign-id-right-then-name-error", false}, {"query-echo-then-right", true}}
 	var wg sync.WaitGroup
 	skipped := 0
 	for k, sc := range scripts {
@@ -1530,6 +1751,18 @@ func nbChallenges() {
 						}
 					case "foreign-id-then-right":
 						answer(id^0x0101, net.IP{10, 9, 9, 9}, 0)
+						answer(id, ip.To4(), 0)
+					case "foreign-id-name-error-then-right":
+						// a stray negative response of another transaction, then the genuine answer
+						answer(id^0x5A5A, nil, 3)
+						time.Sleep(5 * time.Millisecond)
+						answer(id, ip.To4(), 0)
+					case "foreign-id-right-then-name-error":
+						answer(id^0x5A5A, ip.To4(), 0)
+						time.Sleep(5 * time.Millisecond)
+						answer(id, nil, 3)
+					case "query-echo-then-right":
+						conn.WriteToUDP(append([]byte{}, buf[:n]...), from) // the request itself bounced back (R bit clear)
 						answer(id, ip.To4(), 0)
 					case "other-address":
 						answer(id, net.IP{10, 9, 9, 9}, 0)
@@ -1587,7 +1820,9 @@ func child() {
 	}
 	for _, kind := range []string{"Server", "UDPServer", "TCPServer"} {
 		nbGroups(kind)
+		nbSameID(kind)
 	}
+	nbRuntFrames()
 	runs := pick(2, 12)
 	for _, kind := range []string{"Server", "UDPServer"} {
 		for _, nc := range []int{2, 4, 8, 16} {
